@@ -81,7 +81,11 @@ struct counted {
     counted(long x) : v(x) { live++; }
     counted(const counted &o) : v(o.v) { live++; }
     counted(counted &&o) : v(o.v) { live++; }
-    ~counted() { live--; }
+    // a destroyed instance is recognisable: reading it afterwards yields the poison value, not the payload
+    ~counted() {
+        live--;
+        *(volatile long *)&v = -7777777;
+    }
 };
 
 // ---- per-case context: event list + counters (only the one running thread touches it) ----
@@ -311,6 +315,11 @@ struct ConvCtx {
                 return p(work(src));
         }
     }
+    long slot = 0;   // the object a reference-returning converter refers to
+    long &convr(counted &src) {
+        slot = work(src.v);
+        return slot;
+    }
     long conv(counted &src) { return work(src.v); }
     long conv0() { return work(0); }
     suspend_point<void> convp(counted &src, promise<long> &p) { return workp(src.v, p); }
@@ -326,6 +335,33 @@ struct HoldT {
     HoldT(promise<FT> &&q) : p(std::move(q)) {}
     template <typename F>
     HoldT(F &&f, int) : p(f()) {}
+};
+// factory functor WITH captured state, handed to callback_await as a temporary: it dies at the end of the caller's
+// statement and says so if it is used afterwards
+template <typename L, typename F>
+struct MkFn {
+    L *l;
+    long alive;
+    explicit MkFn(L *x) : l(x), alive(0x600D) {}
+    MkFn(const MkFn &o) : l(o.l), alive(o.alive) {}
+    MkFn(MkFn &&o) : l(o.l), alive(o.alive) {}
+    ~MkFn() {
+        *(volatile long *)&alive = 0;
+        *(L *volatile *)&l = nullptr;
+    }
+    F operator()() {
+        if (*(volatile long *)&alive != 0x600D) {
+            g_ctx->ev(37, g_ctx->step());   // the factory is used after its destruction
+            return F::set_not_value();
+        }
+        return (*l)();
+    }
+};
+// outer future of a reference-returning converter
+struct OuterHoldR {
+    future<long &> f;
+    template <typename F>
+    OuterHoldR(F &&mk) : f(mk()) {}
 };
 struct OuterHold {
     future<long> f;
@@ -343,7 +379,7 @@ struct Cfg {
         if (k < 0 || k > 2 || ck < 0 || ck > 4 || cbthrow < 0 || cbthrow > 1) return false;
         if (ck >= 2 && spec != 3) return false;
         if (ck == 4 && k2 >= 0) return false;
-        if (spec < 0 || spec > 3 || (isvoid && (spec == 1 || spec == 2))) return false;
+        if (spec < 0 || spec > 4 || (isvoid && (spec == 1 || spec == 2 || spec == 4))) return false;
         if (ad == 1 && mode < 2) return false;
         if (k2 < -1 || k2 > 2 || (k2 >= 0 && mode != 2)) return false;
         if (k3 < -1 || k3 > 2 || (k3 >= 0 && (ad != 4 || k2 >= 0))) return false;
@@ -451,6 +487,10 @@ static bool run_case(const vh::Case &cs, bool seq, bool coro) {
         std::optional<future_conv<&conv_free>> fc1;
         std::optional<future_conv<&conv_free_ctx>> fc2;
         std::optional<Fc3> fc3;
+        std::optional<future_conv<&ConvCtx::convr>> fc4;   // To = long&
+        alignas(OuterHoldR) static char obufr[sizeof(OuterHoldR)];
+        OuterHoldR *outerr = nullptr;
+        std::optional<co_awaiter<future<long &>>> outer_awr;
         // the outer future lives in zeroed raw storage so that its readiness can be observed while it is still being constructed
         alignas(OuterHold) static char obuf[sizeof(OuterHold)];
         std::memset(obuf, 0, sizeof(obuf));
@@ -502,6 +542,38 @@ static bool run_case(const vh::Case &cs, bool seq, bool coro) {
                 return {};
             }
         };
+        // the outer future<long&> must refer to the very object the converter returned
+        struct RefArg { Ctx *c; future<long &> *f; long *expect; };
+        auto read_ref = [](future<long &> &f, long *expect, long &kind, long &datum) {
+            kind = 7; datum = 0;
+            try {
+                long &r = f.value();
+                if (&r == expect) { kind = 1; datum = r; } else kind = 9;   // refers to some other object
+            } catch (const test_exc &e) { kind = 2; datum = e.code; }
+            catch (const await_canceled_exception &) { kind = f.has_value().await_resume() ? 3 : 0; }
+            catch (const value_not_ready_exception &) { kind = 7; }
+        };
+        struct OuterCbR {
+            static suspend_point<void> fn(awaiter *, void *u) noexcept {
+                auto *o = static_cast<RefArg *>(u);
+                long kind = 7, datum = 0;
+                try {
+                    long &r = o->f->value();
+                    if (&r == o->expect) { kind = 1; datum = r; } else kind = 9;
+                } catch (const test_exc &e) { kind = 2; datum = e.code; }
+                catch (const await_canceled_exception &) { kind = o->f->has_value().await_resume() ? 3 : 0; }
+                catch (const value_not_ready_exception &) { kind = 7; }
+                o->c->ev(33, o->c->step(), kind, datum);
+                return {};
+            }
+        };
+        RefArg ocbr_arg{&ctx, nullptr, &cctx.slot};
+        auto reg_convr = [&](auto &fc) {
+            outerr = new (obufr) OuterHoldR([&] { return fc << mk; });
+            ocbr_arg.f = &outerr->f;
+            outer_awr.emplace(outerr->f);
+            if (outer_awr->await_ready() || !outer_awr->await_suspend(&OuterCbR::fn, &ocbr_arg)) OuterCbR::fn(nullptr, &ocbr_arg);
+        };
         std::pair<Ctx *, future<long> *> ocb_arg{&ctx, nullptr};
         auto reg_conv = [&](auto &fc) {
             outer = new (obuf) OuterHold([&] { return fc << mk; });
@@ -525,9 +597,9 @@ static bool run_case(const vh::Case &cs, bool seq, bool coro) {
         auto reg = [&] {
             switch (g.ad) {
                 case 0:
-                    if (g.stor == 0) callback_await<future<FT>>(AwFn<RT>(&ctx), mk);
+                    if (g.stor == 0) callback_await<future<FT>>(AwFn<RT>(&ctx), MkFn<decltype(mk), future<FT>>(&mk));
                     else with_storage([&](auto &st) {
-                        callback_await_alloc<std::remove_reference_t<decltype(st)>, future<FT>>(st, AwFn<RT>(&ctx), mk);
+                        callback_await_alloc<std::remove_reference_t<decltype(st)>, future<FT>>(st, AwFn<RT>(&ctx), MkFn<decltype(mk), future<FT>>(&mk));
                     });
                     break;
                 case 1:
@@ -540,6 +612,7 @@ static bool run_case(const vh::Case &cs, bool seq, bool coro) {
                 case 3:
                     if (g.spec == 0) { fc0.emplace(&cctx); reg_conv(*fc0); }
                     else if (g.spec == 3) { fc3.emplace(&cctx); reg_conv(*fc3); }
+                    else if (g.spec == 4) { if constexpr (!Tr::isvoid) { fc4.emplace(&cctx); reg_convr(*fc4); } }
                     else if constexpr (!Tr::isvoid) {
                         if (g.spec == 1) { fc1.emplace(); reg_conv(*fc1); }
                         else { fc2.emplace(&cctx); reg_conv(*fc2); }
@@ -618,6 +691,10 @@ static bool run_case(const vh::Case &cs, bool seq, bool coro) {
         }
         for (auto &e : ctx.events) vh::print_obs(e);
         ctx.events.clear();
+        if (outerr) {
+            outer_ready = outerr->f.ready();
+            if (outer_ready) read_ref(outerr->f, &cctx.slot, outer_kind, outer_datum);
+        }
         if (outer) {
             outer_ready = outer->f.ready();
             if (outer_ready) read_future(outer->f, outer_kind, outer_datum);
@@ -626,12 +703,15 @@ static bool run_case(const vh::Case &cs, bool seq, bool coro) {
         long n1 = vh::g_news.load(), d1 = vh::g_deletes.load();
         vh::t_count = true;   // anything the adapters and the storages still own dies here, counted
         outer_aw.reset();
+        outer_awr.reset();
+        if (outerr) outerr->~OuterHoldR();
         if (outer) outer->~OuterHold();
         cctx.held.reset();
         fc0.reset();
         fc1.reset();
         fc2.reset();
         fc3.reset();
+        fc4.reset();
         cfa.reset();
         hold.reset();
         hold2.reset();
